@@ -45,6 +45,7 @@ type FnCtx struct {
 	lastSort   *sortInfo
 	preDeferSite string
 	noClosure  bool
+	lastReads  []string
 }
 
 type deferRec struct {
@@ -73,6 +74,7 @@ type loopInfo struct {
 	phiIn   map[*ssa.Phi]Val
 	modRefs map[string][]string // comp -> refs the loop may write below the entry frontier
 	localAllocs []*ssa.Alloc
+	readsAll bool
 }
 
 type unsupported struct{ msg string }
@@ -1346,8 +1348,31 @@ func (fc *FnCtx) execSlice(x *ssa.Slice) error {
 		return nil
 	case *types.Pointer:
 		at, ok := bt.Elem().Underlying().(*types.Array)
-		if !ok || base.Loc != nil {
+		if !ok {
 			return unsupportedf("slice of %s", x.X.Type())
+		}
+		if base.Loc != nil {
+			// an array stored inside a struct or variable as one opaque value: the slice is a fresh byte region and
+			// the stored value becomes arbitrary (it may be written through the slice)
+			fc.vc.trust("x.f[:] on an array field yields a fresh region; the field's (opaque) value is havocked at that point, assuming the slice is used immediately")
+			nv := fc.symbolic("arrfield", base.Loc.Typ)
+			if base.Loc.Kind != locConst {
+				if err := fc.store(base.Loc, nv); err != nil {
+					return err
+				}
+			}
+			ref := fc.newRef()
+			lo, err := get(x.Low, "0")
+			if err != nil {
+				return err
+			}
+			hi, err := get(x.High, fmt.Sprintf("%d", at.Len()))
+			if err != nil {
+				return err
+			}
+			fc.getComp(elemComp(at.Elem()), arraySort(arraySort(fc.sortStr(at.Elem()))))
+			fc.define(x, mkSlice(ref, lo, mkSub(hi, lo), mkSub(fmt.Sprintf("%d", at.Len()), lo)), x.Type())
+			return nil
 		}
 		n := fmt.Sprintf("%d", at.Len())
 		lo, err := get(x.Low, "0")
